@@ -554,6 +554,11 @@ pub fn c10_weights(c: &FuCtx, rec: &mut Rec) {
             if !has_open && post.wraw.contains_key(&(u, li)) {
                 rec.viol("C10_weight_without_open_position", format!("user {u} lp{li}: entries {:?}", post.wraw.get(&(u, li))));
             }
+            // whoever holds an open position has weight bookkeeping for that LP (an entry may round to 0 after piecewise closes,
+            // but it cannot be absent)
+            if has_open && !post.wraw.contains_key(&(u, li)) {
+                rec.viol("C10_open_position_without_weight_entry", format!("user {u} lp{li} holds an open position but has no weight entry at all (after {:?})", c.op));
+            }
             // a position's weight is at least its amount: while nothing was closed partially or topped up in pieces on
             // this LP (the statement's own carve-out for the non-additive per-user bookkeeping) the user's weight
             // covers the amounts of their open positions
@@ -763,7 +768,7 @@ pub fn c11_farms(c: &FuCtx, rec: &mut Rec) {
 
 // ------------------------------------------------------------------------------------------ jobs
 pub fn jobs_c05(tier: Tier) -> Vec<Job> {
-    let mut full = FuChecker::new("c05-fu-full", vec!["F0", "F2", "F3", "F5"], FAlpha::Full, vec![c05_custody]);
+    let mut full = FuChecker::new("c05-fu-full", vec!["F0", "F2", "F3", "F5", "F8", "F10"], FAlpha::Full, vec![c05_custody]);
     full.reward_denoms = vec!["uusdc", "lp1"];
     full.state_oracles = vec![c05_drain];
     let mut core = FuChecker::new("c05-fu-reward", vec!["F3", "F4"], FAlpha::Reward, vec![c05_custody]);
@@ -780,7 +785,7 @@ pub fn jobs_c05(tier: Tier) -> Vec<Job> {
     v
 }
 pub fn jobs_c06(tier: Tier) -> Vec<Job> {
-    let mut r = FuChecker::new("c06-fu-reward", vec!["F1", "F2", "F3"], FAlpha::Reward, vec![c06_rewards]);
+    let mut r = FuChecker::new("c06-fu-reward", vec!["F1", "F2", "F3", "F7", "F9", "F11"], FAlpha::Reward, vec![c06_rewards]);
     r.state_oracles = vec![c06_claimable];
     let mut core = FuChecker::new("c06-fu-core", vec!["F2", "F3"], FAlpha::RewardCore, vec![c06_rewards]);
     core.state_oracles = vec![c06_claimable];
@@ -790,7 +795,7 @@ pub fn jobs_c06(tier: Tier) -> Vec<Job> {
     vec![explore_job(r, tier.pick(3, 4), Caps::default()), explore_job(core, tier.pick(5, 7), Caps::default()), explore_job(many, tier.pick(2, 4), Caps::default())]
 }
 pub fn jobs_c07(tier: Tier) -> Vec<Job> {
-    let r = FuChecker::new("c07-fu-reward", vec!["F1", "F2", "F3"], FAlpha::Reward, vec![c07_share]);
+    let r = FuChecker::new("c07-fu-reward", vec!["F1", "F2", "F3", "F7", "F9", "F11"], FAlpha::Reward, vec![c07_share]);
     let mut d = FuChecker::new("c07-fu-diamond", vec!["F2", "F3"], FAlpha::RewardCore, vec![c07_share]);
     d.state_oracles = vec![c07_diamond];
     let mut many = FuChecker::new("c07-fu-manyfarms", vec!["F6"], FAlpha::RewardCore, vec![c07_share, c06_rewards]);
@@ -799,18 +804,18 @@ pub fn jobs_c07(tier: Tier) -> Vec<Job> {
 }
 pub fn jobs_c08(tier: Tier) -> Vec<Job> {
     let full = FuChecker::new("c08-fu-full", vec!["F0", "F2", "F4", "F5"], FAlpha::Full, vec![c08_positions]);
-    let p = FuChecker::new("c08-fu-positions", vec!["F1", "F4", "F5"], FAlpha::Positions, vec![c08_positions]);
+    let p = FuChecker::new("c08-fu-positions", vec!["F1", "F4", "F5", "F7"], FAlpha::Positions, vec![c08_positions]);
     vec![explore_job(full, tier.pick(2, 3), Caps::default()), explore_job(p, tier.pick(3, 4), Caps::default())]
 }
 pub fn jobs_c10_explore(tier: Tier) -> Vec<Job> {
-    let p = FuChecker::new("c10-fu-positions", vec!["F0", "F1", "F4"], FAlpha::Positions, vec![c10_weights]);
+    let p = FuChecker::new("c10-fu-positions", vec!["F0", "F1", "F4", "F7"], FAlpha::Positions, vec![c10_weights]);
     let r = FuChecker::new("c10-fu-reward", vec!["F2", "F3"], FAlpha::Reward, vec![c10_weights]);
     vec![explore_job(p, tier.pick(3, 4), Caps::default()), explore_job(r, tier.pick(3, 4), Caps::default())]
 }
 pub fn jobs_c11(tier: Tier) -> Vec<Job> {
     let mut v = vec![];
     for (i, (fee, rd)) in [(("uom", 1000u128), "uusdc"), (("uom", 0u128), "uusdc"), (("uusdc", 0u128), "uusdc"), (("uusdc", 1000u128), "uusdc")].into_iter().enumerate() {
-        let mut c = FuChecker::new(&format!("c11-fu-farms-cfg{i}"), vec!["F0", "F2"], FAlpha::Farms, vec![c11_farms]);
+        let mut c = FuChecker::new(&format!("c11-fu-farms-cfg{i}"), vec!["F0", "F2", "F8"], FAlpha::Farms, vec![c11_farms]);
         c.farm_fee = (fee.0.to_string(), fee.1);
         c.reward_denoms = vec![rd];
         v.push(explore_job(c, tier.pick(3, 5), Caps::default()));
